@@ -192,6 +192,37 @@ def job_hpack(job):
     return acc.result()
 
 
+def job_fields(job):
+    """Field-level grids inside otherwise well-formed frames (the byte-pattern fills of the structural family only ever
+    produce a handful of field values): every SETTINGS identifier 0..40 and a few beyond x boundary values, alone and
+    next to a known setting, with and without ACK; RST_STREAM / GOAWAY error codes 0..20 and extremes; WINDOW_UPDATE
+    increments at the boundaries; PRIORITY weights and dependencies."""
+    import struct as _st
+    client, cfg = job["client"], tuple(map(tuple, job["cfg"]))
+    acc = Acc()
+    for state in (("handshaken", "open") if not client else ("handshaken", "open", "resp-headers")):
+        blob = corpus.state_blob(client, state, cfg)
+        frames = []
+        for ident in list(range(0, 41)) + [0xff, 0x100, 0x7fff, 0xffff]:
+            for value in (0, 1, 2, 100, 2 ** 14, 2 ** 24 - 1, 2 ** 31 - 1, 2 ** 32 - 1):
+                frames.append([wire.settings([(ident, value)])])
+                frames.append([wire.settings([(4, 70000), (ident, value)])])
+                frames.append([wire.settings([(ident, value), (ident, value ^ 1)])])
+        for code in list(range(0, 21)) + [0xff, 2 ** 31, 2 ** 32 - 1]:
+            frames.append([wire.rst_stream(1, code)])
+            frames.append([wire.goaway(1, code, b"x")])
+        for sid in (0, 1, 3):
+            for inc in (0, 1, 2 ** 31 - 1 - 65535, 2 ** 31 - 65535, 2 ** 31 - 1):
+                frames.append([wire.raw(wire.WINDOW_UPDATE, 0, sid, _st.pack(">I", inc))])
+        for frs in frames:
+            data = wire.ser(frs)
+            conn = pickle.loads(blob)
+            v, _ = feed(conn, [data])
+            acc.add(client, state, cfg, [data], v, "fields")
+    acc.samples.append({"family": "fields", "role": "client" if client else "server", "example": "SETTINGS (7, 1)"})
+    return acc.result()
+
+
 def job_chains(job):
     """CONTINUATION chains of 1, 2, 63, 64, 65 continuations, valid and garbage blocks."""
     client, cfg = job["client"], tuple(map(tuple, job["cfg"]))
@@ -333,6 +364,7 @@ def run(ctx):
                 jobs.append({"fam": "hpack", "client": client, "cfg": cfg, "firsts": list(range(a, a + 8)),
                              "positions": pos})
             jobs.append({"fam": "chains", "client": client, "cfg": cfg})
+            jobs.append({"fam": "fields", "client": client, "cfg": cfg})
             for i in range(len(corpus.valid_streams(client))):
                 jobs.append({"fam": "mut", "client": client, "cfg": cfg, "stream": i, "pairs": not quick})
     if not quick:
